@@ -81,7 +81,7 @@ class DataTypeBuilder(_parser.StatementStreamProcessor):
         if _verif_trace.ENABLED:
             _verif_trace.emit(
                 "finalize",
-                sections=[[len(b.fields), len(b.constants), b.union, str(b.serialization_mode)] for b in self._structs],
+                sections=[[len(b.fields), len(b.constants), b.union, _verif_trace.text(b.serialization_mode)] for b in self._structs],
                 deprecated=self._is_deprecated,
                 pending=self._element_callback is not None,
             )
